@@ -45,6 +45,9 @@ STEPLOG = []          # per-line parser states recorded by the hook during the l
 STEP_EVENTS = []      # (abstract physical lines, logged states, text) collected for Trace_CrtfSteps
 
 
+_EXC = [0]
+
+
 def hooks():
     try:
         from regions._utils import verif
@@ -209,7 +212,10 @@ def build(u_, rad=False):
     def coord(i):
         return PixCoord(pos[i], pos[i + 1]) if pix else SkyCoord(pos[i], pos[i + 1], unit='deg', frame=frame)
     sz = [ds9text.value(v)[1] if pix else ds9text.value(v)[1] * u.deg for v in u_['sizes']]
-    meta = {'include': bool(u_['inc'])} if not u_['inc'] else {}
+    # an excluded region carries a false include flag in any of the forms the package itself stores (False; the integer 0 of the DS9 and
+    # FITS readers; numpy's False)
+    _EXC[0] += 1
+    meta = {'include': [False, 0, np.False_, np.int64(0)][_EXC[0] % 4]} if not u_['inc'] else {}
     visual = {}
     if u_['typ'] == 'ann':
         meta['type'] = 'ann'
@@ -391,7 +397,7 @@ def trace_validation(ctx):
             s = lambda: rnd.uniform(0.02, 2.0) * u.deg  # noqa
             meta = {}
             if rnd.random() < 0.4:
-                meta['include'] = rnd.choice([True, False])
+                meta['include'] = rnd.choice([True, False, 0, 1])
             if rnd.random() < 0.4:
                 meta['label'] = rnd.choice(['lab', 'two words', 'source #3', '#1'])
             if rnd.random() < 0.3:
